@@ -28,7 +28,9 @@ def r1_with_values(ctx):
     repo = ctx.repo
     fi = repo.func(f"{B}.TaskBuilder.with_values")
     ctx.analysed(fi.qual)
-    me = _tb({"0": "old0", "5": "old5"}, {"a": 1})
+    # the schema lists keyword-bindable parameters only (positional-only / *args parameters are not in it), so a position says
+    # nothing about a schema name: values given by keyword must survive whatever positions are bound
+    me = _tb({"0": "old0", "5": "old5"}, {"a": 1}, ins={"a": "int", "k": "int"})
     cases = [((7, 8), {"k": 2}, {"0": 7, "1": 8, "5": "old5"}, {"a": 1, "k": 2}),
              (((7, 8),), {}, {"0": (7, 8), "5": "old5"}, {"a": 1}),
              ((), {"a": 9}, {"0": "old0", "5": "old5"}, {"a": 9})]
@@ -238,3 +240,96 @@ def r6_with_edge(ctx):
 
 
 RULES = [r1_with_values, r2_r3_edge_errors, r4_build, r5_no_inplace, r6_with_edge]
+
+
+def r7_models_take_values_verbatim(ctx):
+    """C19.R7: the job model classes store what the builder gives them: a validator / __init__ / post-init hook defined on
+    Task2TaskEdge, TaskInstance, TaskDefinition, JobInstance or DatasetId must return its input unchanged on the rule's model inputs
+    (in particular a keyword edge whose parameter name consists of digits stays a keyword edge)."""
+    repo = ctx.repo
+    hooks = ("model_validator", "field_validator", "validator", "root_validator")
+    n = 0
+    for cname in ("Task2TaskEdge", "TaskInstance", "TaskDefinition", "JobInstance", "DatasetId"):
+        ci = repo.cls(CORE + cname)
+        for mname, fi in ci.methods.items():
+            is_hook = any(d.split("(")[0].split(".")[-1] in hooks for d in fi.decorators) or mname in ("__init__", "model_post_init", "__post_init__", "__new__")
+            if not is_hook:
+                continue
+            n += 1
+            ctx.analysed(fi.qual)
+            if cname != "Task2TaskEdge" or mname in ("__init__", "__new__"):
+                ctx.undecided("C19.R7", loc(fi), f"{ci.name}.{mname} is a construction hook the rule has no model input for")
+                continue
+            datas = [{"source": Obj(CORE + "DatasetId", {"task": "s", "output": "0"}, frozen=True), "sink_task": "t", "sink_input_kw": kw, "sink_input_ps": ps}
+                     for kw, ps in (("7", None), ("x", None), (None, 0))]
+            bad = None
+            for d in datas:
+                params = [p_ for p_ in fi.params if p_ not in ("cls", "self")]
+                if not params:
+                    continue
+                for p in Interp(repo).explore(fi, args={params[0]: dict(d)}):
+                    rv = p.exit[1] if p.exit[0] == "return" else None
+                    if p.exit[0] != "return" or not isinstance(rv, dict) or {k: vkey(v) for k, v in rv.items()} != {k: vkey(v) for k, v in d.items()}:
+                        bad = (d, p.exit[0], rv)
+                        break
+                if bad:
+                    break
+            if bad:
+                ctx.violation("C19.R7", fi.qual, loc(fi), "edge fields stored as given",
+                              f"{ci.name}.{mname} turns the edge fields kw={bad[0]['sink_input_kw']!r} ps={bad[0]['sink_input_ps']!r} into {vkey(bad[2])[:140]} ({bad[1]}): "
+                              f"an edge bound by keyword must stay a keyword edge (positional edges are not validated against the parameter list)")
+            else:
+                ctx.ok("C19.R7", loc(fi), f"{ci.name}.{mname}: model inputs returned unchanged")
+    if n == 0:
+        ctx.ok("C19.R7", "src/cascade/low/core.py", "the job model classes define no validators / construction hooks: fields hold the constructor arguments")
+
+
+RULES.append(r7_models_take_values_verbatim)
+
+
+def r8_no_cross_call_state(ctx):
+    """C19.R8: the builders keep no state between calls: no function of cascade.low.builders writes into a module-level container or
+    rebinds a module global (a memo keyed by id(callable) hands a later callable the schema and default values of an earlier one; a
+    cached dict of defaults is shared by every builder made from it)."""
+    import ast as _ast
+    from ..calls import MUTATORS
+    repo = ctx.repo
+    m = repo.module(B)
+    glob = set()
+    for st in m.tree.body:
+        tg = []
+        if isinstance(st, _ast.Assign):
+            tg = st.targets
+        elif isinstance(st, _ast.AnnAssign):
+            tg = [st.target]
+        for t in tg:
+            if isinstance(t, _ast.Name):
+                glob.add(t.id)
+    n = bad = 0
+    for fi in repo.all_funcs():
+        if fi.module is not m:
+            continue
+        n += 1
+        local = {a.arg for a in _ast.walk(fi.node) if isinstance(a, _ast.arg)}
+        for node in _ast.walk(fi.node):
+            hit = None
+            if isinstance(node, _ast.Global):
+                hit = f"declares `global {', '.join(node.names)}`"
+            elif isinstance(node, _ast.Subscript) and isinstance(node.ctx, (_ast.Store, _ast.Del)) and isinstance(node.value, _ast.Name) and node.value.id in glob - local:
+                hit = f"stores into the module-level container `{node.value.id}`"
+            elif isinstance(node, _ast.Call) and isinstance(node.func, _ast.Attribute) and isinstance(node.func.value, _ast.Name) \
+                    and node.func.value.id in glob - local and node.func.attr in MUTATORS:
+                hit = f"mutates the module-level container `{node.func.value.id}` (.{node.func.attr})"
+            if hit:
+                bad += 1
+                ctx.violation("C19.R8", fi.qual, loc(fi, node), "no state kept between builder calls",
+                              f"{fi.qual} {hit}: what one call records is used by later calls, so a built task/job depends on earlier, unrelated calls")
+                break
+        else:
+            continue
+    ctx.floor("C19.R8.functions", n, 8)
+    if not bad:
+        ctx.ok("C19.R8", "src/cascade/low/builders.py", f"{n} builder functions: none writes module-level state")
+
+
+RULES.append(r8_no_cross_call_state)
